@@ -299,25 +299,21 @@ Section ZIndex.
     intros R S. pose proof R as [Rc Ri]. pose proof (sim_size compact clock (z_c z) a Rc S) as Hs.
     unfold zrem_all. fold (zsize z) in Hs. destruct (zsize z =? 0) eqn:Z0.
     - assert (a = []) by (destruct a; [reflexivity|cbn [length] in Hs; lia]). subst a. cbn [fst snd]. split; [exact S|reflexivity].
-    - assert (X : forall b : bool,
-                simz (fst (if b then ({| z_c := Build_coll None (c_elems (z_c z)); z_index := z_index z |}, zsize z)
-                                else zremove (map snd (index_scan (zver z) (z_index z))) z)) [] /\
-                snd (if b then ({| z_c := Build_coll None (c_elems (z_c z)); z_index := z_index z |}, zsize z)
-                     else zremove (map snd (index_scan (zver z) (z_index z))) z) = Z.of_nat (length a)).
-      { intros b. destruct b; cbn [fst snd].
-        - split; [|exact Hs]. unfold simz, sim, abs_c, exists_coll. cbn [z_c c_meta]. apply meq_refl. constructor.
-        - assert (NDm : NoDup (map snd (index_scan (zver z) (z_index z)))) by (eapply index_scan_members_NoDup; exact R).
-          destruct (zremove_ref compact clock _ z a R NDm S) as [S' C'].
-          assert (NDa : NoDup (map fst a)) by (destruct S as (_ & N & _); exact N).
-          rewrite (index_scan_sorted clock z a R S) in *.
-          assert (MS : forall k, In k (map snd (zsorted a)) <-> In k (map fst a)).
-          { intros k. unfold zsorted. rewrite !in_map_iff. split.
-            - intros ([s m] & <- & H). apply isort_In in H. apply in_map_iff in H. destruct H as ([m' s'] & E & H). inversion E; subst.
-              exists (m, s). auto.
-            - intros ([m s] & <- & H). exists (s, m). split; [reflexivity|]. apply isort_In. apply in_map_iff. exists (m, s). auto. }
-          destruct (del_all_members a (map snd (zsorted a)) NDa (fun k Hk => proj2 (MS k) Hk)) as [D1 D2].
-          split; [eapply meq_trans; [exact S'|exact D1]|]. rewrite C'. apply D2; [exact NDm|]. intros k Hk; apply MS; exact Hk. }
-      apply X.
+    - destruct lazy; cbn [fst snd].
+      + split; [|exact Hs]. unfold simz, sim, abs_c, exists_coll. cbn [z_c c_meta]. apply meq_refl. constructor.
+      + destruct (range_delete_num <? zsize z); cbn [fst snd].
+        * split; [|exact Hs]. unfold simz, sim, abs_c, exists_coll. cbn [z_c c_meta]. apply meq_refl. constructor.
+        * assert (NDm : NoDup (map snd (index_scan (zver z) (z_index z)))) by (eapply index_scan_members_NoDup; exact R).
+            destruct (zremove_ref compact clock _ z a R NDm S) as [S' C'].
+            assert (NDa : NoDup (map fst a)) by (destruct S as (_ & N & _); exact N).
+            rewrite (index_scan_sorted clock z a R S) in *.
+            assert (MS : forall k, In k (map snd (zsorted a)) <-> In k (map fst a)).
+            { intros k. unfold zsorted. rewrite !in_map_iff. split.
+              - intros ([s m] & <- & H). apply isort_In in H. apply in_map_iff in H. destruct H as ([m' s'] & E & H). inversion E; subst.
+                exists (m, s). auto.
+              - intros ([m s] & <- & H). exists (s, m). split; [reflexivity|]. apply isort_In. apply in_map_iff. exists (m, s). auto. }
+            destruct (del_all_members a (map snd (zsorted a)) NDa (fun k Hk => proj2 (MS k) Hk)) as [D1 D2].
+            split; [eapply meq_trans; [exact S'|exact D1]|]. rewrite C'. apply D2; [exact NDm|]. intros k Hk; apply MS; exact Hk.
   Qed.
 End ZIndex.
 
